@@ -284,7 +284,23 @@ pub fn state_event_hist(id: usize, p: &Problem, k: u32, first: Option<u32>) -> V
                 off += d;
             }
         }
-        for (kk, val) in [("ev", json!("KKTState")), ("identity_ok", json!(identity_ok)), ("id", json!(id)), ("p_bits_equal", json!(p_eq)), ("a_bits_equal", json!(a_eq)),
+        // the LDL engine keeps its own (permuted) copy of the matrix: after a KKT update and refactorisation it is the KKT copy
+        // entry for entry, plus the static regulariser (sign * eps) on the diagonal - nothing else, nothing stale
+        let static_on = st.static_regularization_enable;
+        let (ldl_known, ldl_sync) = match &v.ldl_values {
+            Some(lv) if n_updates >= 1 && lv.len() == v.nzval.len() => {
+                let mut is_diag = vec![usize::MAX; v.nzval.len()];
+                for (i, &idx) in v.diag_full.iter().enumerate() { is_diag[idx] = i; }
+                let eps = if static_on { v.diagonal_regularizer } else { 0.0 };
+                let ok = (0..lv.len()).all(|k| {
+                    let want = if is_diag[k] != usize::MAX { v.nzval[k] + (v.dsigns[is_diag[k]] as f64) * eps } else { v.nzval[k] };
+                    lv[k].to_bits() == want.to_bits() || (lv[k] == 0.0 && want == 0.0)
+                });
+                (true, ok)
+            }
+            _ => (false, true),
+        };
+        for (kk, val) in [("ev", json!("KKTState")), ("identity_ok", json!(identity_ok)), ("ldl_known", json!(ldl_known)), ("ldl_sync", json!(ldl_sync)), ("id", json!(id)), ("p_bits_equal", json!(p_eq)), ("a_bits_equal", json!(a_eq)),
                          ("hs_bits_equal", json!(hs_eq)), ("fill_diag_zero", json!(fill_zero)), ("soc_aux_ok", json!(soc_ok)),
                          ("dsigns", json!(v.dsigns)), ("dsigns_tail", json!(tail)), ("expected_tail", json!(exp_tail)),
                          ("static_reg", json!(st.static_regularization_enable && updates >= 1)),
